@@ -429,7 +429,7 @@ pub fn subs_for(id: &str) -> Vec<Sub> {
             lp(
                 "C02",
                 "c02-layout",
-                "dependency-heavy plans over systems that mostly share no resource; oracle A: every declared edge A -> B has A in an earlier stage, or earlier in the same group; non-trivial = >= 1 edge whose endpoints do not conflict on resources",
+                "dependency-heavy plans over systems that mostly share no resource, 1/16 of the ops a registration attempt that is rejected by a panic (reused name, or a dependency on a name never registered), caught by the caller who goes on using the builder; oracle A: every declared edge A -> B has A in an earlier stage, or earlier in the same group; non-trivial = >= 1 edge whose endpoints do not conflict on resources",
                 GenCfg {
                     p_dep: 11,
                     max_deps: 4,
@@ -437,6 +437,7 @@ pub fn subs_for(id: &str) -> Vec<Sub> {
                     max_reads: 1,
                     max_writes: 1,
                     p_barrier: 1,
+                    p_rejected: 1,
                     ..GenCfg::default()
                 },
                 600,
@@ -884,6 +885,36 @@ pub fn sched_subs_for(id: &str) -> Vec<Sub> {
                 60,
                 2_000,
             ),
+            sched_sub(
+                p_sched::SchedProp {
+                    thread_choices: vec![2, 4, 8, 16],
+                    max_repeats: 2,
+                    ..sp(
+                        "C05",
+                        "c05-differential-heavy-readers",
+                        "heavy-reader class (<= 10 resources, up to 6 reads and at most 1 write per system, up to 40 systems, skewed running-time hints): groups whose accumulated access lists outgrow every inline capacity, free run with jitter and maximal overlap, compared with the sequential result",
+                        GenCfg {
+                            max_ops: 40,
+                            universe_max: 10,
+                            max_reads: 6,
+                            max_writes: 1,
+                            write_chance: 4,
+                            p_dep: 0,
+                            p_barrier: 0,
+                            p_batch: 0,
+                            p_tl: 0,
+                            p_static: 0,
+                            ..GenCfg::default()
+                        },
+                        vec![Want::Differential],
+                        vec![Dispatch, Par],
+                        vec![2, 1],
+                        p_sched::nt_differential,
+                    )
+                },
+                40_000,
+                600_000,
+            ),
         ],
         "C13" => vec![sub(
             p_misc::C13 {
@@ -975,8 +1006,8 @@ pub fn sched_subs_for(id: &str) -> Vec<Sub> {
                     p_misc::C14 {
                         // wide stages (more than 6 groups) that also hold groups of several systems
                         cfg: GenCfg {
-                            max_ops: 18,
-                            universe_max: 24,
+                            max_ops: 26,
+                            universe_max: 32,
                             max_reads: 1,
                             max_writes: 1,
                             p_dep: 7,
@@ -994,9 +1025,39 @@ pub fn sched_subs_for(id: &str) -> Vec<Sub> {
                     10_000,
                 )
             },
+            Sub {
+                max_lanes: 8,
+                ..sub(
+                    p_misc::C14 {
+                        // batches that dispatch several times, driven by the library's MultiDispatcher
+                        // or a hand-written controller, nested: faults in later inner dispatches
+                        cfg: GenCfg {
+                            max_ops: 6,
+                            max_inner_ops: 3,
+                            universe_max: 4,
+                            max_depth: 2,
+                            allow_multi: true,
+                            tl_in_batch: false,
+                            p_tl: 1,
+                            p_batch: 6,
+                            ..GenCfg::default()
+                        },
+                        pairs: false,
+                        name: "c14-batches",
+                    },
+                    600,
+                    20_000,
+                )
+            },
         ],
         "C14g" => vec![],
-        "C17" => vec![sub(p_meta::C17, 150_000, 4_000_000)],
+        "C17" => vec![
+            sub(p_meta::C17, 150_000, 4_000_000),
+            Sub {
+                max_lanes: 2,
+                ..sub(p_meta::C17Conc, 1_500, 60_000)
+            },
+        ],
         "C15" => vec![Sub {
             max_lanes: 4,
             ..sub(
